@@ -148,8 +148,10 @@ def canon(v):
     """Replace the free text of Cause members (sibling of an Error member) by a placeholder."""
     if isinstance(v, dict):
         out = {}
+        # the record of a child execution (result of a startExecution[.sync] Task) carries event-id derived names and wall-clock dates
+        volatile = ("ExecutionArn", "Name", "StartDate", "StopDate", "Input") if "ExecutionArn" in v else ("executionArn", "startDate") if "executionArn" in v else ()
         for k, x in v.items():
-            out[k] = "<cause>" if (k == "Cause" and "Error" in v and isinstance(x, str)) else canon(x)
+            out[k] = "<cause>" if (k == "Cause" and "Error" in v and isinstance(x, str)) else "<volatile>" if k in volatile else canon(x)
         return out
     if isinstance(v, list):
         return [canon(x) for x in v]
